@@ -32,3 +32,26 @@ Theorem C16_kb_pinned_panics :
 Proof. exact kb_pinned_panics. Qed.
 Print Assumptions C16_kb_pinned_panics.
 Print Assumptions C16_verify_signature_iff.
+
+(* what is never accepted: a key-binding JWT whose sd_hash is not the digest of THIS presentation of the
+   disclosures, whose nonce / audience is not the one the verifier asked for, or whose iat lies after
+   `now` when no latest bound is configured; and the accepted value is the token's own claims *)
+Theorem C16_kb_accepted_is_claims : forall now t holder o c, validate_kb now t holder o = Ok c -> kb_claims t = Some c.
+Proof. exact kb_accepted_is_claims. Qed.
+Theorem C16_kb_other_digest_rejected : forall now t holder o c c',
+  kb_claims t = Some c -> kc_sd_hash c <> kb_digest t -> validate_kb now t holder o <> Ok c'.
+Proof. exact kb_other_digest_rejected. Qed.
+Theorem C16_kb_other_nonce_rejected : forall now t holder o c c' n,
+  kb_claims t = Some c -> ko_nonce o = Some n -> n <> kc_nonce c -> validate_kb now t holder o <> Ok c'.
+Proof. exact kb_other_nonce_rejected. Qed.
+Theorem C16_kb_other_audience_rejected : forall now t holder o c c' a,
+  kb_claims t = Some c -> ko_aud o = Some a -> a <> kc_aud c -> validate_kb now t holder o <> Ok c'.
+Proof. exact kb_other_audience_rejected. Qed.
+Theorem C16_kb_future_rejected : forall now t holder o c c',
+  kb_claims t = Some c -> ko_latest o = None -> now < kc_iat c -> validate_kb now t holder o <> Ok c'.
+Proof. exact kb_future_rejected. Qed.
+Print Assumptions C16_kb_accepted_is_claims.
+Print Assumptions C16_kb_other_digest_rejected.
+Print Assumptions C16_kb_other_nonce_rejected.
+Print Assumptions C16_kb_other_audience_rejected.
+Print Assumptions C16_kb_future_rejected.
